@@ -2,7 +2,7 @@
 # usage: tools/mutcheck.sh <patch.diff> <Cxx> [tier]   -- apply a seeded change to /repo, run the check, undo it
 P="$1"; C="$2"; T="${3:-quick}"
 git -C /repo apply "$P" || { echo "patch does not apply"; exit 9; }
-cd /verif && ./check "$C" --tier "$T" > /tmp/mutcheck.$$.log 2>&1; rc=$?
+cd /verif && VERIF_EVIDENCE_DIR=/tmp/mut_evidence ./check "$C" --tier "$T" > /tmp/mutcheck.$$.log 2>&1; rc=$?
 git -C /repo checkout -- . 
 nb=$(grep -c "^  bounded" /tmp/mutcheck.$$.log); no=$(grep -c "^  obligation" /tmp/mutcheck.$$.log); nu=$(grep -c "^UNDECIDED" /tmp/mutcheck.$$.log)
 echo "violations: bounded=$nb obligation=$no undecided=$nu exit=$rc"
